@@ -136,6 +136,9 @@ def p9(chk, repo, rule="P9"):
                     wh = where(c, st_ev[-1].lineno) if st_ev else c.where
                     if (tp.h, tp.f) == (eh, ef):
                         chk.ok(rule, key, wh, "type (%s,%s)" % (tp.h, tp.f))
+                    elif any(e.kind == "store" and e.cell and e.cell[0] == "partials" and "?" in e.cell[1:] for e in rl.events):
+                        # some store in this method goes to a partials key that was not resolved: it may be this block
+                        chk.undecided(rule, key, wh, "a store to an unresolved partials key may rescale this block")
                     elif sym is True and (tp.h + tp.f) == (eh + ef):
                         chk.violation(rule, key, wh, "the stored partial has extensivity (%s,%s) but d(%s)/d(%s) needs (%s,%s) under %s: the symmetry factor of the output is %s in this partial block" % (tp.h, tp.f, o, w, eh, ef, sig_txt(rl.sigma), "missing" if tp.f < ef else "applied although the output is not doubled"))
                     else:
